@@ -325,7 +325,9 @@ func (w *world) runChain(c ccase) (res *caseResult) {
 	}
 	req := &api.BuildRequest{}
 	if err := httpjson.Read(bytes.NewReader(body), req); err != nil {
-		ev.Fatal("request %s not readable: %v", body, err)
+		// the API server's own body reader on the JSON a client sends for a fundable request
+		fail("chain-request-refused-by-body-reader", "httpjson.Read refuses a well-formed fundable chain request: "+err.Error(), string(body))
+		return
 	}
 
 	stage = "build"
